@@ -68,6 +68,11 @@ func ms(y int, m time.Month, d int) int64 {
 	return time.Date(y, m, d, 0, 0, 0, 0, time.UTC).UnixNano() / 1e6
 }
 
+var farEpochs bool
+
+// ms1: 1 January of a year as unix milliseconds (without going through nanoseconds)
+func ms1(y int) int64 { return time.Date(y, 1, 1, 0, 0, 0, 0, time.UTC).Unix() * 1000 }
+
 func pickLayout(rng *rand.Rand, i int) layout {
 	var l layout
 	l.nb = []uint8{10, 9, 8}[i%3]
@@ -81,6 +86,11 @@ func pickLayout(rng *rand.Rand, i int) layout {
 		ms(2100, 6, 1),
 		time.Now().UnixNano() / 1e6,
 		ms(1990, 1, 1) + rng.Int63n(ms(2080, 1, 1)-ms(1990, 1, 1)),
+	}
+	if farEpochs {
+		// epochs int64 nanoseconds cannot express (before 1678 / after 2262); off by default, see the
+		// note in checks/c06.py
+		epochs = append(epochs, ms1(1600), ms1(1650), ms1(2400), ms1(3000))
 	}
 	l.epoch = epochs[rng.Intn(len(epochs))]
 	max := int64(1)<<l.nb - 1
@@ -173,6 +183,9 @@ var hangs int
 // under test that never returns - spinning or parked - is thereby an observation judged by TLC,
 // not the end of the harness.
 func guarded(w *tr.W, what string, run func(s sink)) {
+	if hangs >= maxHangs {
+		return
+	}
 	b := &bufSink{}
 	done := make(chan struct{})
 	go func() {
@@ -218,7 +231,11 @@ wait:
 	b.mu.Unlock()
 }
 
-var patience = 8 * time.Second
+// a history is given up after two intervals without progress; after maxHangs of them the evidence is
+// in and no further history is run (every one of them would wait for the same call again)
+var patience = 4 * time.Second
+
+const maxHangs = 3
 
 // newHard builds a HardNode.  A refusal is an observation: `new {err}` after the reset event; the
 // specification accepts it exactly when the node number does not fit the node width.
@@ -756,6 +773,7 @@ func runPlan(w sink, rng *rand.Rand, name string, plan []act, i int) {
 		if x.Busy(t) {
 			// parked for ever although nobody holds the node: a fact about goroutine states
 			w.Emit(tr.E{"ev": "hang", "t": t, "state": x.WaitState(t)})
+			hangs++
 		}
 	}
 }
@@ -1037,6 +1055,7 @@ func main() {
 	nbad := flag.Int("bad", 16, "constructor calls with node numbers at and beyond the node width")
 	ncold := flag.Int("cold", 250, "cold-start rounds to keep (rounds whose calls overlapped)")
 	coldMs := flag.Int("coldms", 2500, "time budget for finding them, ms")
+	flag.BoolVar(&farEpochs, "farepochs", false, "also use epochs outside 1678..2262")
 	perG := flag.Int("perg", 200, "logged calls per goroutine in free-running histories")
 	flag.Parse()
 	rng := rand.New(rand.NewSource(*seed))
@@ -1051,7 +1070,7 @@ func main() {
 			if len(p) == 0 || p[0].Op != "init" {
 				tr.Fatal("plan %s does not start with init", f)
 			}
-			if !plansBroken {
+			if !plansBroken && hangs < maxHangs {
 				direct(func() { runPlan(w, rng, filepath.Base(f), p, i) })
 			}
 			if i < *nbatch {
